@@ -8,7 +8,8 @@ def main():
     import joblib
     from vf.engines.values import build
 
-    assert joblib.__file__.startswith("/repo/"), joblib.__file__
+    import os
+    assert joblib.__file__.startswith(os.path.realpath(os.environ.get("VF_REPO", "/repo")) + "/"), joblib.__file__
     out = sys.stdout
     for line in sys.stdin:
         reqs = json.loads(line)
